@@ -47,22 +47,22 @@ claim("C14", "exploration", E1,
       "bounded-exhaustive scenario enumeration on the real back ends with a recording reference backend (differential oracle)", "4/C14")
 
 claim("C15", "model_checking", E1,
-      "Crash-point enumeration on the real Zarr writers through the storage trait seam: record(warmup)^a record(sample)^b on 1-2 chains x EVERY subset of flush positions x chunk sizes {1, below, equal, above, not dividing} x writers {sync/memory, sync/filesystem, async behind a write gate that holds chunk writes for 0/1/2 operations or until the writer waits}; the store is read by a fresh reader after every record, flush and finalisation: complete right after flush, rows covered by the last flush intact at every later point, complete after finalisation.",
-      "Trusted: the zarrs reader; a crash is the store content at an operation boundary (torn writes inside one key are outside the property); the async completion order is owned at the store seam (hold/release), the polling order of simultaneously runnable tokio tasks is not enumerated; Sampler::flush itself (trace mutex) is exercised under C10-C12 with a model back end.",
+      "Crash-point enumeration on the real Zarr writers through the storage trait seam: record(warmup)^a record(sample)^b on 1-2 chains x EVERY subset of flush positions x chunk sizes {1, below, equal, above, not dividing} x writers {sync/memory, sync/filesystem, async behind a write gate that holds chunk writes for 0/1/2 operations or until the writer waits}; the store is read by a fresh reader after every record, flush and finalisation: complete right after flush, rows covered by the last flush intact at every later point, complete after finalisation. Additionally the real Sampler over the Zarr memory store: Sampler::flush at two quiescent points (all chains finished, paused mid-run) against the finalised store (differential).",
+      "Trusted: the zarrs reader; a crash is the store content at an operation boundary (torn writes inside one key are outside the property); the async completion order is owned at the store seam (hold/release), the polling order of simultaneously runnable tokio tasks is not enumerated; Sampler::flush at non-quiescent points (trace mutex) is exercised under C10-C12 with a model back end.",
       "exhaustive enumeration of flush-position subsets x crash points x write-completion timings on the real writers, reference = recorded rows", "4/C15")
 
 claim("C19", "exploration", E1,
-      "Six presets x default and every single-field substitution over a per-type alphabet (thorough: all pairs): JSON round trip is a fixed point, the Debug rendering of the value is identical before and after, every field that holds a value appears in the JSON (values reached by JSON substitution incl. integers beyond 2^53, and values built directly in Rust for every enum variant), and chains built from the round-tripped settings are bit-identical. The trace-metadata clause: the sampler_settings attribute written by the sync and async Zarr writers for every substituted settings value, read back with a fresh reader, equals the settings JSON.",
+      "Six presets x default and every single-field substitution over a per-type alphabet (thorough: all pairs): JSON round trip is a fixed point, the Debug rendering of the value is identical before and after, every field that holds a value appears in the JSON (values reached by JSON substitution incl. integers beyond 2^53, and values built directly in Rust for every enum variant), and chains built from the round-tripped settings are bit-identical. The trace-metadata clause: the sampler_settings attribute written by the sync and async Zarr writers for every substituted settings value, into a fresh store and into a store that already holds a trace with other settings, read back with a fresh reader, equals the settings JSON.",
       "Trusted: serde_json; non-finite floats are outside the quantifier; chains are compared on one 3-d Gaussian for 30 (NUTS) / 10 (MCLMC) draws with a 200k-evaluation watchdog.",
       "bounded-exhaustive enumeration of field substitutions, differential oracle on real chains", "4/C19")
 
 claim("C05", "fault_enumeration", E1,
-      "Every evaluation index k of a complete run (set_position + warmup + 4 draws) x 8 fault kinds, plus pairs of faults in a sliding window, for Diag/LowRank NUTS (Euclidean, ExactNormal), Flow NUTS and DiagMclmc (dynamic step size on/off): no panic, unrecoverable error returned by the call that evaluated, trajectory faults reported as divergences, returned position bit-identical to an earlier valid state with the logp/gradient the density answered for it, finite step size, mass-matrix scales and adaptation statistics, no frozen chain afterwards; configurations with extra_doublings = 2.",
+      "Every evaluation index k of a complete run (set_position + warmup + 4 draws) x 8 fault kinds, plus pairs of faults in a sliding window, for Diag/LowRank NUTS (Euclidean, ExactNormal), Flow NUTS and DiagMclmc (dynamic step size on/off): no panic, unrecoverable error returned by the call that evaluated, trajectory faults reported as divergences, returned position bit-identical to an earlier valid state with the logp/gradient the density answered for it, finite step size, mass-matrix scales and adaptation statistics, no frozen chain afterwards; configurations with extra_doublings = 2; initialisation through the retrying entry point with a fault in the first attempt; an Err from a draw in which no fault fired is reported under its own oracle.",
       "Trusted: 2-d Gaussian target; evaluation phases derived from the density's own log and Progress.num_steps; fixed ChaCha8 seed. One open known finding (fault at the step-size re-initialisation inside adapt).",
       "exhaustive fault-position x fault-kind enumeration on the real chains (public API)", "4/C05")
 
 claim("C09", "model_checking", E1,
-      "Explicit-state search over the real GlobalStrategy::adapt (diagonal and low-rank estimators), one call per draw with the explored event {good, not-good, divergent}: every event word for num_tune <= 7 (10 thorough) in lock-step with the reference schedule automaton (window counts, window growth, switch condition, update bookkeeping, step-size search re-run, tuning flag, frozen transformation) and with reference dual averaging of the early/symmetric statistic; BFS with de-duplication on the schedule's own counters up to num_tune 14 (24), for hand-picked option sets and for the full product of small option alphabets (864 sets per estimator).",
+      "Explicit-state search over the real GlobalStrategy::adapt (diagonal and low-rank estimators), one call per draw with the explored event {good, not-good, divergent}: every event word for num_tune <= 7 (10 thorough) in lock-step with the reference schedule automaton (window counts, window growth, switch condition, update bookkeeping, step-size search re-run, tuning flag, frozen transformation) and with reference dual averaging of the early/symmetric statistic; BFS with de-duplication on the schedule's own counters up to num_tune 14 (24), for hand-picked option sets and for the full product of small option alphabets (864 sets per estimator); the all-words part also with the real Adam estimator against an Adam reference.",
       "Trusted: the reference automaton R-schedule written from the property text (c09.rs) and R-dualavg; synthetic collectors built through hook H1; de-duplication key = (draw, foreground, background, window, last_update, has_initial), sound because the schedule code reads nothing else.",
       "explicit-state BFS/exhaustive word enumeration over the real transition function with canonical-state de-duplication, lock-step reference model", "4/C09")
 
@@ -72,7 +72,7 @@ claim("C07", "model_checking", E1,
       "exhaustive enumeration of acceptance sequences (depth-bounded) against a reference recurrence, pairwise monotonicity check", "4/C07")
 
 claim("C02", "exploration", E1,
-      "Bounded-exhaustive over an explicit alphabet: dimensions {1..64} x three kinetic-energy kinds x diagonal (scales 1e-3..1e3, non-zero mean) and low-rank (ranks 0,1,2,d) transformations x step sizes of both signs x three densities x start points: one real leapfrog step vs an independent dense-matrix reference in the original space (textbook leapfrog / harmonic splitting / closed-form ESH), transformation round trip, gradient pull-back and log-determinant vs dense LU, forward+backward = identity, all {F,B} sequences up to length 4 (path independence), finite-difference Jacobian determinant, energy-error order, exact ExactNormal conservation, re-whitening after a transformation change (diagonal and low-rank, incl. the log-determinant), equivalence of a step taken with step_size_factor f at base size eps/f and the step of size eps.",
+      "Bounded-exhaustive over an explicit alphabet: dimensions {1..64} x three kinetic-energy kinds x diagonal (scales 1e-3..1e3, non-zero mean) and low-rank (ranks 0,1,2,d) transformations x step sizes of both signs x three densities x start points: one real leapfrog step vs an independent dense-matrix reference in the original space (textbook leapfrog / harmonic splitting / closed-form ESH), transformation round trip, gradient pull-back and log-determinant vs dense LU, forward+backward = identity, all {F,B} sequences up to length 4 (path independence), finite-difference Jacobian determinant, energy-error order, exact ExactNormal conservation, re-whitening after a transformation change (diagonal and low-rank, incl. the log-determinant), equivalence of a step taken with step_size_factor f at base size eps/f and the step of size eps; low-rank transformations whose diagonal was first initialised from a gradient.",
       "Trusted: the dense reference (refmodel.rs); values outside the alphabet are not covered; ill-conditioned cases (stiff quartic, saturated ESH update) are counted and only judged by the one-step comparison.",
       "bounded-exhaustive input enumeration + all short operation sequences against a dense reference model", "4/C02")
 
@@ -87,7 +87,7 @@ claim("C03", "model_checking", E1,
       "choice-tree exploration (deviation-bounded) of real chain histories over owned RNG/momentum seams, bit-exact differential oracle + reference NUTS", "4/C03")
 
 claim("C08", "model_checking", E1,
-      "The real estimators driven directly: diagonal exactness on Gaussians (d 1..6(12), condition numbers up to 1e12, every 3-/4-element draw multiset of a point lattice), low-rank whitening on rank-k perturbed covariances with the mean 0 / 1e3 / 2.5e6 standard deviations from the origin (translation invariance), small estimation windows (3..6 draws, 2n <= d) whitening their own draws, high-dimensional log-determinants with all scales tiny or huge, every window of 3 draws x 3 gradients over the 8-value alphabet {0,1,-1,1e-300,1e300,NaN,+-inf} (524288 windows per diagonal mode, 46656 (262144) low-rank windows, all 64 initialiser inputs): scales finite and positive, log-determinant finite, invalid estimates keep the previous value bit-identically; closed loop fisher_distance after the last update.",
+      "The real estimators driven directly: diagonal exactness on Gaussians (d 1..6(12), condition numbers up to 1e12, every 3-/4-element draw multiset of a point lattice), low-rank whitening on rank-k perturbed covariances with the mean 0 / 1e3 / 2.5e6 standard deviations from the origin (translation invariance), small estimation windows (3..6 draws, 2n <= d) whitening their own draws, high-dimensional log-determinants with all scales tiny or huge, the default eigenvalue cut-off on targets where it is exact, every window of 3 draws x 3 gradients over the 8-value alphabet {0,1,-1,1e-300,1e300,NaN,+-inf} (524288 windows per diagonal mode, 46656 (262144) low-rank windows, all 64 initialiser inputs): scales finite and positive, log-determinant finite, invalid estimates keep the previous value bit-identically; closed loop fisher_distance after the last update.",
       "Trusted: exact Gaussian gradients; low-rank whitening judged to 2e-3 (gamma = 1e-5 regularisation) with eigval_cutoff 1 for rank > 0 (with the default cut-off only diagonal structure is exactly representable); the transformation mean is not covered by the property and only counted.",
       "value-alphabet exhaustive window enumeration + bounded-exhaustive draw-set enumeration on the real estimators", "4/C08")
 
